@@ -57,6 +57,25 @@ Proof.
            (same_molb_sound _ _ SM) (all_atom_payloadb_sound _ P1) (all_atom_payloadb_sound _ P2) Wr1 Wr2).
 Qed.
 
+(** without any hypothesis between the runs (identity transcripts; every cut bond is re-created with its own order) *)
+Example ea_text_returned_iso_id :
+  faithfulb ea_cut = true /\ faithfulb ea_cut2 = true /\
+  exists st1 fd1 st2 fd2,
+    from_text fo0 ea_string = Ok st1 /\ st_dicts st1 = [fd1] /\ from_text fo0 ea_string2 = Ok st2 /\ st_dicts st2 = [fd2] /\
+    forall fo1 fo2 ms1 ms2,
+      resolve_step_full (st_legacy st1) (is_all_atom st1) fd1 (st_mol st1) (Some (fo_m3 fo1)) = Ok fo1 ->
+      resolve_step_full (st_legacy st2) (is_all_atom st2) fd2 (st_mol st2) (Some (fo_m3 fo2)) = Ok fo2 ->
+      sort_mapping (fo_m4 fo1) = Ok ms1 -> sort_mapping (fo_m4 fo2) = Ok ms2 ->
+      returned_iso_car after_sort_key ea_cut ea_cut2 (fo_m3 fo1) (fo_m4 fo1) (fo_m3 fo2) (fo_m4 fo2) (fo_mol fo1) (fo_mol fo2) ms1 ms2.
+Proof.
+  assert (F1 : faithfulb ea_cut = true) by (vm_compute; reflexivity). assert (F2 : faithfulb ea_cut2 = true) by (vm_compute; reflexivity).
+  split; [exact F1|]. split; [exact F2|].
+  destruct ea_two_descriptions as (W1 & W2 & SM & P1 & P2 & R1 & R2).
+  destruct (writtenb_sound _ _ _ _ R1) as [B1 Wr1]. destruct (writtenb_sound _ _ _ _ R2) as [B2 Wr2].
+  exact (text_returned_iso_id fo0 ea_cut ea_cut2 ea_base ea_defs B1 ea_base2 ea_defs2 B2 (wf_cutb_sound _ W1) (wf_cutb_sound _ W2)
+           (same_molb_sound _ _ SM) (all_atom_payloadb_sound _ P1) (all_atom_payloadb_sound _ P2) (faithfulb_sound _ F1) (faithfulb_sound _ F2) Wr1 Wr2).
+Qed.
+
 (** ... and its premises are satisfiable: both whole steps return with the identity transcript, and the map works *)
 Definition full_run (s : pystr) : option full_out :=
   match from_text fo0 s, run_string s with
